@@ -137,6 +137,11 @@ SaltOK(s, m) ==
           ELSE m.usm.priv = (LET n == AddOneBE(s.lastSalt) IN IF Len(n) > 8 THEN SubSeq(n, 2, 9) ELSE n))
   /\ s.priv = "des" => SubSeq(m.usm.priv, 1, 4) = U32Octets(m.usm.boots)
 
+(* C14: nothing of the scoped PDU in clear: the request's OID octets occur nowhere in the datagram *)
+Occurs(x, b) == \E i \in 1..(Len(b) - Len(x) + 1) : SubSeq(b, i, i + Len(x) - 1) = x
+NoLeak(e) == \A i \in 1..Len(ExpectedNames(e)) :
+                Len(ExpectedNames(e)[i]) >= 5 => ~Occurs(ExpectedNames(e)[i], e.wire)
+
 WireOK(s, e) ==
   LET d == Decode(s.ver, e.wire) IN
   /\ d.c = Accept                                   \* well-formed, definite, minimal (C03 / C15)
@@ -147,7 +152,7 @@ WireOK(s, e) ==
             /\ On("C09") => MacOK(s, e.wire, d.m, e.interp)
             /\ IF HasPriv(s)
                  THEN /\ d.m.enc
-                      /\ On("C14") => SaltOK(s, d.m)
+                      /\ On("C14") => (SaltOK(s, d.m) /\ NoLeak(e))
                       /\ LET plain == PlainOf(s, d.m, e.interp)
                              sp == IF plain = Missing THEN Rej("no-plaintext") ELSE DecodePlain(plain) IN
                          On("C11") => /\ sp.c = Accept
